@@ -26,6 +26,7 @@ package main
 
 import (
 	"fmt"
+	"strings"
 	"sync"
 	"time"
 
@@ -76,25 +77,45 @@ func (p *foPool) wireSizes(request bool) []int {
 
 type foxFastWriter struct {
 	mu         sync.Mutex
-	pool       *foPool
+	pools      []*foPool
 	tickets    map[uint32]int
 	forced     int
 	infeasible int
 	wait       time.Duration
 }
 
-// install makes every successful hand-over of a frame to a destination send channel wait
-// until the destination's writer has released that frame.
-func foxInstallFastWriter(pool *foPool) *foxFastWriter {
-	w := &foxFastWriter{pool: pool, tickets: map[uint32]int{}, wait: 2 * time.Second}
+// the schedule points directly after each of the library's four `sendCh <- frame` statements
+var foxSentPoints = map[string]bool{
+	"relay.Receive.sent":        true, // Relayer.Receive
+	"reqres.flushFragment.sent": true, // reqResWriter.flushFragment
+	"conn.sendMessage.sent":     true, // Connection.sendMessage
+	"conn.SendSystemError.sent": true, // Connection.SendSystemError
+}
+
+// install makes every successful hand-over of a frame to a send channel wait until the
+// connection's writer has released that frame (pools: every pool a sent frame may belong to).
+func foxInstallFastWriter(pools ...*foPool) *foxFastWriter {
+	w := &foxFastWriter{pools: pools, tickets: map[uint32]int{}, wait: 2 * time.Second}
 	tchannel.VerifSetHook(w.hook)
 	return w
 }
 
 func (w *foxFastWriter) remove() { tchannel.VerifSetHook(nil) }
 
+func (w *foxFastWriter) released(id uint32) int {
+	n := 0
+	for _, p := range w.pools {
+		n += p.writerReleased(id)
+	}
+	return n
+}
+
+// Every frame that enters a send channel passes one of the points with its header id, and is
+// released exactly once by a writeFrames loop with that id: the n-th arrival for an id waits for
+// the n-th such release.  (Two connections using the same id at the same time can satisfy each
+// other's ticket: then that hand-over is simply not forced.)
 func (w *foxFastWriter) hook(name string, id uint32) {
-	if name != "relay.Receive.sent" {
+	if !foxSentPoints[name] {
 		return
 	}
 	w.mu.Lock()
@@ -102,9 +123,9 @@ func (w *foxFastWriter) hook(name string, id uint32) {
 	ticket := w.tickets[id]
 	w.mu.Unlock()
 	deadline := time.Now().Add(w.wait)
-	for w.pool.writerReleased(id) < ticket {
+	for w.released(id) < ticket {
 		if time.Now().After(deadline) {
-			// the writer did not get to it (stalled or stopped destination): not a finding
+			// the writer did not get to it (stalled or stopped connection): not a finding
 			w.mu.Lock()
 			w.infeasible++
 			w.mu.Unlock()
@@ -203,3 +224,88 @@ func foxShort(xs []int) string {
 	}
 	return fmt.Sprint(xs)
 }
+
+// ---------------------------------------------------------------- logger that recognises poisoned headers
+
+// foxLog is a tchannel.Logger at debug level that formats nothing: it only inspects fields and
+// arguments for the header (or the id) of a released, poisoned frame (zz_verif_c12.go: id 0xDEADBEEF).
+type foxLogSink struct {
+	mu   sync.Mutex
+	hits []string
+}
+
+type foxLog struct {
+	sink   *foxLogSink
+	fields tchannel.LogFields
+	poison string
+}
+
+func foxPoisoned(v interface{}) string {
+	switch h := v.(type) {
+	case tchannel.FrameHeader:
+		if h.ID == 0xDEADBEEF {
+			return "header of a released frame " + h.String()
+		}
+	case *tchannel.FrameHeader:
+		if h != nil && h.ID == 0xDEADBEEF {
+			return "header of a released frame " + h.String()
+		}
+	case uint32:
+		if h == 0xDEADBEEF {
+			return "id of a released frame"
+		}
+	case string:
+		if len(h) >= 10 && strings.Contains(h, "3735928559") {
+			return "header of a released frame " + h
+		}
+	}
+	return ""
+}
+
+func (l *foxLog) note(msg string, args ...interface{}) {
+	p := l.poison
+	for _, a := range args {
+		if x := foxPoisoned(a); x != "" {
+			p = x
+		}
+	}
+	if p == "" {
+		return
+	}
+	l.sink.mu.Lock()
+	if len(l.sink.hits) < 8 {
+		l.sink.hits = append(l.sink.hits, fmt.Sprintf("%q carries the %s", msg, p))
+	}
+	l.sink.mu.Unlock()
+}
+func (l *foxLog) Enabled(level tchannel.LogLevel) bool   { return true }
+func (l *foxLog) Fatal(msg string)                       { l.note(msg) }
+func (l *foxLog) Error(msg string)                       { l.note(msg) }
+func (l *foxLog) Warn(msg string)                        { l.note(msg) }
+func (l *foxLog) Infof(msg string, args ...interface{})  { l.note(msg, args...) }
+func (l *foxLog) Info(msg string)                        { l.note(msg) }
+func (l *foxLog) Debugf(msg string, args ...interface{}) { l.note(msg, args...) }
+func (l *foxLog) Debug(msg string)                       { l.note(msg) }
+func (l *foxLog) Fields() tchannel.LogFields             { return l.fields }
+func (l *foxLog) WithFields(fields ...tchannel.LogField) tchannel.Logger {
+	n := &foxLog{sink: l.sink, poison: l.poison}
+	n.fields = append(append(tchannel.LogFields{}, l.fields...), fields...)
+	for _, f := range fields {
+		if x := foxPoisoned(f.Value); x != "" {
+			n.poison = "field " + f.Key + " = " + x
+		}
+	}
+	return n
+}
+
+func (s *foxLogSink) verdict() string {
+	s.mu.Lock()
+	defer s.mu.Unlock()
+	if len(s.hits) == 0 {
+		return ""
+	}
+	return "a log line " + s.hits[0] + ": the frame was read after it had been handed on to a connection's writer, which had released it"
+}
+
+// foxLogger, when set, is the logger of the channels foServer creates
+var foxLogger tchannel.Logger
